@@ -34,7 +34,7 @@ TIERS = {"quick": {"shards": 8, "budget": 120}, "thorough": {"shards": 16, "budg
 def cases():
     return wfgen.workflows(max_components=7, max_stages=3, names="confusable", methods=tuple(wfgen.METHODS_GRAPH),
                            allow_paths=True, allow_repeat=False, allow_shutdown=False, replicate_via_vars=True,
-                           max_n=12, allow_multi_ref=True)
+                           max_n=12, allow_multi_ref=True, allow_ref_in_var=True)
 
 
 _STAGE_PREFIX = re.compile(r"^stage\d+\.")
@@ -116,8 +116,12 @@ def check(W, ctx: Ctx):
             sig = "aggregate-reference-order" if sorted(a_refs) == sorted(e["refs"]) else "wrong-references"
             raise Violation(sig, "%s: expected references %s got %s | flowir=%s" % (n, e["refs"], a_refs, fl))
         # arguments may keep the spelling the author used: compare token-wise modulo the stage prefix
+        raw_args = spec.commandDetails.get("arguments") or ""
+        if "%(rv)s" in raw_args:
+            # the reference text lives in a component variable: compare the interpolated command line
+            raw_args = (g.configurationForNode(n).get("command") or {}).get("arguments") or ""
         a_args = " ".join(_absolute(t, nodes[n]["stage"]) if _is_ref_token(t) else t
-                          for t in (spec.commandDetails.get("arguments") or "").split(" "))
+                          for t in raw_args.split(" "))
         if a_args != e["args"]:
             raise Violation("wrong-arguments", "%s: expected %r got %r | flowir=%s" % (n, e["args"], a_args, fl))
         a_pred = sorted(set(g.graph.predecessors(n)))
